@@ -11,7 +11,8 @@ by TAB; every string is percent-encoded (safe: letters, digits, `_ . -`; the emp
   (`name=l.h.l.h,…` joined by `!`), validated and compared with the port.
   Answer: `ok|err  commands-or-message  flags`.
 * `EXEC  shared V cmds T` — strict execution of `cmds` on vsys `V`; `T` = target vsys.
-  Answer: `accepted=<k> err=<reason|-> equiv=<0|1> wf=<0|1>  <vsys reached>`.
+  Answer: `accepted=<k> err=<reason|-> equiv=<0|1> wf=<0|1>  <vsys reached>`; `equiv` is `equivSem`: header
+  elements with PAN-OS's default content count as absent (absent `<rule-type>` = `universal`, …).
 * `DEVEXEC shared A groups` — `execDevAll`: the whole plan (`name|cmds` joined by `!`) on the whole device `A`;
   answer: `ok  <device reached>` or `err  <reason>`.
 * `MYERS n m bits` — the port of `myers.Diff` on an equality matrix; answer: ranges.
@@ -221,7 +222,7 @@ def answerPlan (devA devB shared a b scripts : String) : String :=
 def mismatch (dv tv : Vsys) : List Rule → List Rule → String
   | [], [] => "none"
   | d :: ds, t :: ts =>
-    if d.hdr != t.hdr then "hdr"
+    if hdrSem d.hdr != hdrSem t.hdr then "hdr"
     else if !sameSet (addrContent dv d.src) (addrContent tv t.src) then "src"
     else if !sameSet (addrContent dv d.dst) (addrContent tv t.dst) then "dst"
     else if !sameSet (srvContent dv d.srv) (srvContent tv t.srv) then "srv"
@@ -235,7 +236,7 @@ def answerExec (shared v cmds t : String) : String :=
     let sh := decList shared
     let (w, k, e) := execAll sh v0 (parseCmds cmds)
     let (eqv, mm) := match parseVsys t with
-      | some tv => (b2s (equiv w tv), mismatch w tv w.rules tv.rules)
+      | some tv => (b2s (equivSem w tv), mismatch w tv w.rules tv.rules)
       | none => ("-", "-")
     s!"accepted={k} err={(e.map enc).getD "-"} equiv={eqv} mismatch={mm} wf={b2s (wellFormed sh w)}\t{showVsys w}"
 
